@@ -14,7 +14,9 @@ from vlib import tlc, tlaval, gorun, core
 
 PROPS = ['C19']
 
-HARNESS = ['zz_netlistener_test.go']
+HARNESS = ['zz_vs_sched.go', 'zz_netlistener_test.go']
+# scheduling point before every statement and every atomic of streamWrapper.Close (concurrent Close/Close of one conn)
+INSTR_CONC = {"files": {"net_listener.go": {"funcs": ["streamWrapper.Close"], "everyStmt": ["streamWrapper.Close"]}}}
 SLUG = 'backlog-orphan-pins-session'
 SLUG_DW = 'write-after-session-teardown-segv'
 SLUG_GH = 'late-data-resurrects-closed-stream'
@@ -45,7 +47,7 @@ def cfg(ns, nk, ws, rs, maxw, bcap, sync, feat, inv=INVARIANTS, extra=''):
 
 
 API = ('Connect', 'COpen', 'Write', 'Read', 'ReadStart', 'CClose', 'SClose', 'AcceptConn', 'AcceptErr', 'AcceptPark',
-       'LClose', 'CSessClose')
+       'LClose', 'CSessClose', 'WcBegin', 'WcGuard', 'WcStream', 'WcStore', 'WcDone')
 COMPLETIONS = ('AcceptWakeConn', 'AcceptWakeErr', 'ReadWake')
 
 ENUM = {'none': 0, 'up': 1, 'open': 1, 'closed': 2, 'half': 3, 'failed': 4}
@@ -90,6 +92,8 @@ def api_edge(name, args):
         return 'lclose', [], args[0], []
     if name == 'CSessClose':
         return 'sessclose', [args[0]], 'ok', []
+    if name in ('WcBegin', 'WcGuard', 'WcStream', 'WcStore', 'WcDone'):
+        return name.lower(), [args[0], args[1], args[2]], 'ok', []
     raise ValueError(name)
 
 
@@ -301,6 +305,56 @@ def macro_graph_full(nodes_txt, edges, inits, ns, nk):
     return mg
 
 
+CONC_CFG = dict(name='conc-close', ns=1, nk=2, ws=[2], rs=[3], maxw=1, bcap=2, feat=['conc', 'nodown'])
+CONC_PREFIX = [('connect', [1]), ('open', [1, 1]), ('write', [0, 1, 1, 2]), ('open', [1, 2]), ('write', [0, 1, 2, 2]),
+               ('accept', []), ('accept', []), ('read', [1, 1, 2, 3])]
+CONC_OPS = ('wcbegin', 'wcguard', 'wcstream', 'wcstore', 'wcdone')
+
+
+def conc_build(inv):
+    """TLC on the configuration with streamWrapper.Close opened up into its steps for two concurrent callers; returns
+    (TLC result, #transitions, schedules): schedules = an edge cover of the part of the macro graph that is reachable
+    from "target conn (slot 1) and witness conn (slot 2) accepted, witness drained" with closer steps and server Reads
+    of the target, each step with the predicted projection"""
+    g = CONC_CFG
+    with TLC_SLOTS:
+        res, nodes, edges, inits = tlc.dump_graph('NetListener', 'mc.cfg', timeout=600, workers=TLC_WORKERS,
+                                                  extra_files={'mc.cfg': gcfg(g, inv=inv)})
+    if res.violation or not res.ok or not edges:
+        return res, 0, None, None
+    mg = macro_graph(nodes, edges, inits, g['ns'], g['nk'])
+    out = {}
+    for i, e in enumerate(mg['edges']):
+        out.setdefault(e['src'], []).append(i)
+    cur = mg['init']
+    for op, a in CONC_PREFIX:
+        nxt = [i for i in out.get(cur, []) if mg['edges'][i]['op'] == op and mg['edges'][i]['a'] == a
+               and mg['edges'][i]['res'] in ('ok', 'conn')]
+        if len(nxt) != 1:
+            raise RuntimeError('conc prefix: %s%s has %d successors' % (op, a, len(nxt)))
+        cur = mg['edges'][nxt[0]]['dst']
+    s0 = cur
+    keep = lambda e: e['op'] in CONC_OPS or (e['op'] == 'read' and e['a'][:3] == [1, 1, 1])
+    sub, seen, todo = [], {s0}, [s0]
+    while todo:
+        n = todo.pop()
+        for i in out.get(n, []):
+            e = mg['edges'][i]
+            if keep(e):
+                sub.append((str(e['src']), str(e['dst']), i))
+                if e['dst'] not in seen:
+                    seen.add(e['dst'])
+                    todo.append(e['dst'])
+    paths, remaining = tlc.cover_paths([str(s0)], [(a, b, str(i)) for (a, b, i) in sub])
+    scheds = []
+    for pi, path in enumerate(paths):
+        steps = [dict(mg['edges'][sub[j][2]], proj=mg['nodes'][mg['edges'][sub[j][2]]['dst']]) for j in path]
+        scheds.append({'name': 'conc-%d' % pi, 'ns': g['ns'], 'nk': g['nk'], 'bcap': g['bcap'], 'unit': 1, 'small': True,
+                       'steps': steps})
+    info = {'start_proj': mg['nodes'][s0], 'edges': len(sub), 'uncovered': remaining, 'states': len(seen)}
+    return res, len(edges), scheds, info
+
+
 def run(prop, tier, seed, replay=None):
     ck = core.Check(prop, 'model_checking', tier, seed)
     ck.assumptions += [
@@ -349,7 +403,7 @@ def run(prop, tier, seed, replay=None):
 
     def probe_run(key, paths):
         probes[key] = gorun.run_harness('^TestVS_NetListener$', HARNESS, None, timeout=180, inputs={'job': {
-            'graphs': [], 'paths': paths, 'seed': ck.seed, 'workers': 1 if len(paths) < 4 else 7, 'budget_ms': 60000,
+            'graphs': [], 'paths': paths, 'seed': ck.seed, 'workers': 1 if len(paths) < 4 else 4, 'budget_ms': 60000,
             'known': True, 'units': [3]}})
 
     def tlc_round(fixed):
@@ -379,9 +433,33 @@ def run(prop, tier, seed, replay=None):
         ths.append(threading.Thread(target=design_run, args=(
             dict(name='amo', ns=1, nk=1, ws=[1], rs=[3], maxw=2, bcap=1, feat=['drainfix'] if fixed else []),
             'strict-at-most-once', False, 'AtMostOnce', 300)))
+        # a check-then-act guard in streamWrapper.Close instead of the CAS: the reference is released twice (lead)
+        ths.append(threading.Thread(target=design_run, args=(
+            dict(CONC_CFG, feat=CONC_CFG['feat'] + ['weakguard']), 'strict-release-once-with-weak-guard', True, 'RelOnce', 300)))
         return graphs, built, errs, design, ths
 
-    graphs, built, errs, design, ths = tlc_round(False)
+    # concurrent Close/Close of one conn: TLC on the step-granular configuration, then its schedules + random point-level
+    # interleavings on the instrumented real code under the serialising scheduler; runs next to everything else
+    conc = {}
+
+    def conc_run():
+        try:
+            res, ntrans, scheds, info = conc_build(INVARIANTS + ' RelOnce')
+            conc.update(res=res, ntrans=ntrans, info=info, scheds=scheds)
+            if scheds is None:
+                return
+            cjob = {'graphs': [], 'paths': [], 'seed': ck.seed, 'workers': 1, 'known': True, 'units': [1],
+                    'conc': {'start_proj': info['start_proj'], 'scheds': scheds, 'unit': [1, 64, 700][ck.seed % 3],
+                             'small': ck.seed % 2 == 0, 'random': 150 if ck.tier == 'quick' else 3000}}
+            conc['go'] = gorun.run_harness('^TestVS_NetListener$', HARNESS, INSTR_CONC, inputs={'job': cjob},
+                                           timeout=300 if ck.tier == 'quick' else 900)
+        except Exception as ex:  # pragma: no cover
+            conc['error'] = repr(ex)
+    conc_th = threading.Thread(target=conc_run)
+    conc_th.start()
+    # the committed tree has the repaired listener: TLC starts with that variant, the orphan probe confirms or corrects
+    assumed_fixed = True
+    graphs, built, errs, design, ths = tlc_round(assumed_fixed)
     pths = [threading.Thread(target=probe_run, args=('orphan', [probe, ghost])),
             threading.Thread(target=probe_run, args=('dw', [dwprobe])),
             threading.Thread(target=probe_run, args=('late', late_paths))]
@@ -424,7 +502,22 @@ def run(prop, tier, seed, replay=None):
     ck.cov['late_stream_probe'] = {'worlds': gl.result['paths'], 'session_pinned_in': gl.result.get('known_hits', 0),
                                    'abandoned_handshake_timeout': gl.result.get('env_aborted', 0)}
     for v in gl.result.get('violations') or []:
-        ck.violation('%s: %s' % (v['kind'], v['detail']), {'kind': 'path', 'path': v['path'], 'detail': v['detail']})
+        # a hand-written path has no predicted state to settle on, it relies on timing: a verdict needs the history to fail
+        # again when it is run alone (3 tries)
+        again = None
+        for attempt in range(3):
+            gc = gorun.run_harness('^TestVS_NetListener$', HARNESS, None, timeout=180, inputs={'job': {
+                'graphs': [], 'paths': [v['path']], 'seed': ck.seed + attempt, 'workers': 1, 'budget_ms': 60000,
+                'known': True, 'units': [3]}})
+            if gc.result is None or gc.result.get('violations'):
+                again = gc
+                break
+        if again is not None:
+            ck.violation('%s: %s' % (v['kind'], v['detail']), {'kind': 'path', 'path': v['path'], 'detail': v['detail']})
+        else:
+            ck.notes.append('late-stream probe: "%s" was observed once and did not reproduce in 3 runs of the same history '
+                            'alone (overloaded machine) - not a verdict' % v['detail'][:160])
+            ck.cov['unreproduced_probe_observations'] = ck.cov.get('unreproduced_probe_observations', 0) + 1
     for d in gl.result.get('drift') or []:
         print('SPEC-DRIFT module=NetListener at=%s' % d[:600])
     lw = gl.result.get('known_witness')
@@ -440,9 +533,9 @@ def run(prop, tier, seed, replay=None):
             ck.violation('session-pinned-by-unsurfaced-stream: %s  (history: Connect ; OpenStream ; Write ; Accept ; '
                          'listener.Close ; OpenStream ; Write ; conn.Close)' % what,
                          {'kind': 'path', 'path': lw['path'], 'detail': what, 'slug': SLUG})
-    if fixed:
-        ck.log('the tree has the repaired listener: TLC again with Feat + drainfix')
-        graphs, built, errs, design, ths = tlc_round(True)
+    if fixed != assumed_fixed:
+        ck.log('the tree has the %s listener: TLC again with the matching variant of the specification' % ('repaired' if fixed else 'pinned'))
+        graphs, built, errs, design, ths = tlc_round(fixed)
         for t in ths:
             t.start()
         for t in ths:
@@ -539,7 +632,60 @@ def run(prop, tier, seed, replay=None):
         evaluate(ck, r, listed, known, witness is not None)
     finally:
         shutil.rmtree(wd, ignore_errors=True)
+    conc_th.join()
+    conc_evaluate(ck, conc)
     return ck.finish()
+
+
+def conc_evaluate(ck, conc):
+    if conc.get('error'):
+        ck.inconc('concurrent-Close run failed: ' + conc['error'])
+        return
+    res = conc.get('res')
+    if res is None or conc.get('scheds') is None:
+        if res is not None and res.violation:
+            ck.inconc('TLC reports %s on the step-granular Close configuration of NetListener (design-level lead)' % res.violation)
+        else:
+            ck.inconc('TLC did not complete on the step-granular Close configuration: %s' %
+                      ((res.error or res.out[-300:]) if res is not None else 'no result'))
+        return
+    ck.add('states', res.distinct)
+    ck.add('transitions', conc['ntrans'])
+    ck.cov.setdefault('tlc_configs', []).append(
+        'NetListener Sync conc-close (NS=1 NK=2 Feat=%s, streamWrapper.Close in steps for 2 callers): %d distinct states, %d '
+        'transitions, depth %d; closer sub-graph %d states / %d edges -> %d schedules; %.0fs'
+        % (CONC_CFG['feat'], res.distinct, conc['ntrans'], res.depth, conc['info']['states'], conc['info']['edges'],
+           len(conc['scheds']), res.wall))
+    g = conc.get('go')
+    if g is None or g.result is None:
+        out = g.out if g is not None else ''
+        if 'panic:' in out or 'fatal error:' in out:
+            m = re.search(r'(panic: .*|fatal error: .*)', out)
+            # the library panicked outside the closer threads (e.g. the accept goroutine): the history is the conc run
+            ck.violation('the process dies while one conn is closed by two goroutines at once: %s' % (m.group(1)[:200] if m else ''),
+                         {'kind': 'conc', 'scheds': conc['scheds'], 'start_proj': conc['info']['start_proj'], 'random': 150})
+        else:
+            ck.inconc('concurrent-Close harness produced no result: %s' % out[-800:])
+        return
+    r = g.result
+    for e in r.get('harness_err') or []:
+        ck.inconc('concurrent-Close harness: ' + e)
+    c = r.get('counters') or {}
+    ck.cov['concurrent_close'] = {'spec_schedules_replayed': c.get('conc_spec_schedules', 0),
+                                  'conforming_schedules_and_interleavings': r.get('conforming', 0),
+                                  'random_point_interleavings': c.get('conc_random_interleavings', 0),
+                                  'scheduling_points_executed': c.get('conc_sched_points', 0),
+                                  'instrumented': (g.report or [])}
+    ck.add('traces_validated_against_impl', r.get('conforming', 0))
+    if r.get('drift_count'):
+        ck.cov['spec_drift'] = True
+        for d in r.get('drift') or []:
+            print('SPEC-DRIFT module=NetListener at=%s' % d[:600])
+    for v in r.get('violations') or []:
+        ck.violation('%s: %s  (interleaving: %s)' % (v['kind'], v['detail'], ' ; '.join(st['label'] for st in v['path']['steps'])[:600]),
+                     {'kind': 'conc', 'scheds': [dict(v['path'], name='replay', steps=[dict(st, proj=[]) for st in v['path']['steps']])],
+                      'start_proj': conc['info']['start_proj'],
+                      'random': 0, 'unit': v['path'].get('unit', 1), 'small': v['path'].get('small', True), 'detail': v['detail']})
 
 
 def evaluate(ck, r, listed, known, had_witness):
@@ -617,8 +763,32 @@ def crash_analysis(ck, g, wd, listed, cands=None):
     return True
 
 
+def do_replay_conc(ck, rep, path):
+    tr = tlc.run('NetListener', 'mc.cfg', timeout=300, workers=TLC_WORKERS, extra_files={'mc.cfg': gcfg(CONC_CFG, inv=INVARIANTS + ' RelOnce')})
+    ck.add('states', tr.distinct)
+    ck.add('transitions', tr.generated)
+    ck.add('traces_validated_against_impl', 0)
+    ck.sample({'replayed': [[st.get('label') for st in p['steps']] for p in rep['scheds'][:2]]})
+    cjob = {'graphs': [], 'paths': [], 'seed': ck.seed, 'workers': 1, 'known': True, 'units': [1],
+            'conc': {'start_proj': rep['start_proj'], 'scheds': rep['scheds'], 'unit': rep.get('unit', 1),
+                     'small': rep.get('small', True), 'random': rep.get('random', 0)}}
+    g = gorun.run_harness('^TestVS_NetListener$', HARNESS, INSTR_CONC, inputs={'job': cjob}, timeout=300)
+    if g.result is None:
+        if 'panic:' in g.out or 'fatal error:' in g.out:
+            m = re.search(r'(panic: .*|fatal error: .*)', g.out)
+            ck.violation('the process dies: %s' % (m.group(1)[:200] if m else ''), rep, name=os.path.basename(path))
+        else:
+            ck.inconc('harness produced no result: ' + g.out[-800:])
+        return ck.finish()
+    for v in g.result.get('violations') or []:
+        ck.violation('%s: %s' % (v['kind'], v['detail']), rep, name=os.path.basename(path))
+    return ck.finish()
+
+
 def do_replay(ck, path, listed):
     rep = json.load(open(path))
+    if rep.get('kind') == 'conc':
+        return do_replay_conc(ck, rep, path)
     p = rep['path']
     # the design verdict that goes with a replay: the smallest configuration, checked in this run
     tr = tlc.run('NetListener', 'mc.cfg', timeout=300, workers=TLC_WORKERS, extra_files={'mc.cfg': gcfg(QUICK_GRAPHS[0])})
